@@ -6,9 +6,10 @@
      skips);
    * the ElemInfo stack machine: new / parent / start_elem / end_elem /
      write_text / write_comment / write_doctype / write_processing_instruction;
-   * the RcDom traversal as a function of the tree: the calls are issued in
-     document order (start_elem, children, end_elem).  The VecDeque of
-     SerializeOp used by rcdom is not modelled (pre-order is C20's subject).
+   * the RcDom traversal twice: as written (a VecDeque of SerializeOp popped
+     from the front: run_ops / ser_deque, what the correspondence run executes)
+     and as a recursive function of the tree (visit / ser, what the proofs use;
+     SerProofs.ser_deque_is_ser shows they coincide).
 
    The model mirrors the code AS IT IS.  Two places where the code is known to
    violate C07 carry a switch so that the repaired behaviour can be executed
@@ -343,3 +344,60 @@ Fixpoint run_calls (v : variant) (o : opts) (cs : list call) (st : sstate) : sre
 
 Definition ser_calls (v : variant) (o : opts) (cs : list call) : option (list N) :=
   match run_calls v o cs (ser_new v o) with SOk st => Some (out st) | SPanic => None end.
+
+(* ------------------------------------------------------------------ rcdom's traversal as written:
+   a VecDeque of SerializeOp { Open(handle), Close(name) }, popped from the
+   front; an element pushes Close(name) and then its children, in reverse, to
+   the FRONT.  fuel bounds the number of pops (2 per element, 1 per other node). *)
+Inductive sop := OpOpen (n : node) | OpClose (name : qname).
+
+Fixpoint run_ops (v : variant) (o : opts) (fuel : nat) (ops : list sop) (st : sstate) : option sres :=
+  match fuel with
+  | O => None
+  | S f =>
+    match ops with
+    | [] => Some (SOk st)
+    | OpClose name :: rest =>
+      match end_elem o st name with
+      | SOk st' => run_ops v o f rest st'
+      | SPanic => Some SPanic
+      end
+    | OpOpen n :: rest =>
+      match n with
+      | Element name attrs children =>
+        match start_elem v o st name attrs with
+        | SOk st' => run_ops v o f (map OpOpen children ++ OpClose name :: rest) st'
+        | SPanic => Some SPanic
+        end
+      | Doctype name =>
+        match write_doctype st name with SOk st' => run_ops v o f rest st' | SPanic => Some SPanic end
+      | Text contents =>
+        match write_text v o st contents with SOk st' => run_ops v o f rest st' | SPanic => Some SPanic end
+      | Comment contents =>
+        match write_comment st contents with SOk st' => run_ops v o f rest st' | SPanic => Some SPanic end
+      | ProcInst target contents =>
+        match write_processing_instruction st target contents with
+        | SOk st' => run_ops v o f rest st'
+        | SPanic => Some SPanic
+        end
+      | Document _ => Some SPanic
+      end
+    end
+  end.
+
+Fixpoint node_ops (n : node) : nat :=
+  match n with
+  | Element _ _ children => S (S (fold_right (fun c acc => node_ops c + acc)%nat O children))
+  | Document children => S (fold_right (fun c acc => node_ops c + acc)%nat O children)
+  | _ => 1%nat
+  end.
+
+Definition ser_deque (v : variant) (o : opts) (n : node) : option sres :=
+  let ops := match traversal_scope o with
+             | IncludeNode => [OpOpen n]
+             | ChildrenOnly _ => map OpOpen (children_of n)
+             end in
+  run_ops v o (S (node_ops n)) ops (ser_new v o).
+
+Definition ser_deque_bytes (v : variant) (o : opts) (n : node) : option (list N) :=
+  match ser_deque v o n with Some (SOk st) => Some (out st) | _ => None end.
